@@ -47,7 +47,7 @@ reg("C15", "model_checking",
     "explicit-state BFS to closure over the real Multicast object against a simulated NCP table, every initial table, every write outcome",
     "Closed state graph for table sizes 0..4 and 3 groups from every initial NCP table (each group at most once), both status families: every reachable state x "
     "{startup, subscribe, unsubscribe} x {accepted, rejected, TimeoutError}; each transition is the real coroutine judged by a reference derived from the NCP table only "
-    "(write allowed? which index? entry contents? return status?) plus the index-partition invariant in every state; closure covers sequences of every length.",
+    "(write allowed? which index? entry contents? return status?) plus the index-partition invariant in every state; closure covers sequences of every length. A second closed graph drives EZSPEndpoint.add_to_group / remove_from_group on a real zigpy device.",
     "A timed-out write is assumed not applied; reads succeed; CPython's set.pop() hand-out order is normalised by the harness after each step (the un-normalised order is run statelessly to depth 2/3).",
     "DESIGN.md section 3 C15")
 
